@@ -54,6 +54,7 @@ impl Check for AsyncCheck {
                     AOp::SetIfNotEq(v) => Some(AOp::Set(*v)),
                     AOp::UpdateIf(x, _) => Some(AOp::Update(*x)),
                     AOp::Take => Some(AOp::Set(7)),
+                    AOp::SidePollThenNextNow => Some(AOp::NextNow),
                     _ => None,
                 };
                 if let Some(s) = simpler {
